@@ -162,17 +162,21 @@ def run(run, tier, replay):
         mc_cfgs = ["MC_FileModel.cfg"] if quick else ["MC_FileModel_thorough.cfg", "MC_FileModel_deep.cfg"]
         gens = [("Gen_FileModel.cfg", {}), ("Gen_FileModel_deep.cfg", {})] if quick else \
                [("Gen_FileModel.cfg", {}), ("Gen_FileModel_deep4.cfg", {}),
-                ("Gen_FileModel_thorough.cfg", {"simulate": 30000, "depth": 9})]
+                ("Gen_FileModel_thorough.cfg", {"simulate": 800, "depth": 9})]
         stats = [_new_stats() for _ in gens]
         paths = [os.path.join(tmp, "gen%d.jsonl" % i) for i in range(len(gens))]
-        jobs = [lambda c=c: vlib.tlc("FileModel", c, workers=1, timeout=2400) for c in mc_cfgs]
-        jobs += [lambda i=i: _gen(gens[i][0], paths[i], stats[i], workers=1, timeout=2400, **gens[i][1])
-                 for i in range(len(gens))]
         build = [None]
-        jobs.append(lambda: build.__setitem__(0, vlib.cargo_build("hfs", [BIN])))
-        if not quick:
-            jobs.append(lambda: vlib.tlc("FileModel", "MC_FileModel_strict.cfg", workers=1, timeout=600, coverage=False))
-        out = _parallel(jobs)
+        mc_jobs = [lambda c=c: vlib.tlc("FileModel", c, workers=1 if quick else 2, timeout=2400) for c in mc_cfgs]
+        gen_jobs = [lambda i=i: _gen(gens[i][0], paths[i], stats[i], workers=1, timeout=2400, **gens[i][1])
+                    for i in range(len(gens))]
+        build_job = [lambda: build.__setitem__(0, vlib.cargo_build("hfs", [BIN]))]
+        if quick:
+            out = _parallel(mc_jobs + gen_jobs + build_job)
+        else:       # two phases so that never more than 4 TLC workers run
+            out = _parallel(mc_jobs + build_job)[:len(mc_jobs)]
+            mark("model_checking")
+            out += _parallel(gen_jobs + [lambda: vlib.tlc("FileModel", "MC_FileModel_strict.cfg", workers=1,
+                                                          timeout=600, coverage=False)])
         mark("tlc_and_build")
         for c, r in zip(mc_cfgs, out):
             vlib.require_model_ok(r, "FileModel/" + c)
@@ -180,7 +184,7 @@ def run(run, tier, replay):
             if z:
                 raise vlib.ToolError("FileModel/%s: actions never taken: %s" % (c, z))
             run.add_model("FileModel/" + c, r)
-        for (c, kw), g, st in zip(gens, out[len(mc_cfgs):], stats):
+        for (c, kw), g, st in zip(gens, out[len(mc_cfgs):len(mc_cfgs) + len(gens)], stats):
             if st["n"] == 0:
                 raise vlib.ToolError("Gen_FileModel/%s printed no behaviours" % c)
             if not kw:        # exhaustive generation also checked PathsAgreeModuloKnown and Sanity in every state
